@@ -61,7 +61,10 @@ namespace options
 
             if (!is_value() && !is_double_dash())
             {
-                if (!std::regex_match(arg, std::regex("-{1,2}[^-=]+[^=]*=?.*")))
+                // one or two dashes followed by a name that starts with neither '-' nor '='
+                const std::size_t start = (arg_.size() > 1 && arg_[1] == '-') ? 2 : 1;
+
+                if (start >= arg_.size() || arg_[start] == '-' || arg_[start] == '=')
                 {
                     raise<parsing_error>("The user input couldn't be parsed. (", arg, ")");
                 }
